@@ -712,7 +712,7 @@ static Live start_prefix(Json& js, const Factory& fac, vh::Rng& rng, size_t ngra
     return L;
 }
 
-static void step_prefix(Json& js, Live& L, size_t flen) {
+static bool step_prefix(Json& js, Live& L, size_t flen, bool deliberate_bad = false) {
     Chans fr;
     for (auto& ch : L.stream) {
         fr.push_back(ch.sub(L.pos, L.pos + flen));
@@ -738,6 +738,11 @@ static void step_prefix(Json& js, Live& L, size_t flen) {
     L.bit = L.bit && bit;
     js.begin("Process").num("id", L.id).num("flen", flen).str("o", o).num("olen", olen)
       .num("firstdiff", fd < 0 ? -1 : (long)fd).boolean("bitident", bit).end();
+    if (std::string(o) != "ret" && !deliberate_bad) {
+        L.pos = L.stream[0].size();   // a valid frame was refused (the event above is judged by the trace spec): do not loop on it
+        return false;
+    }
+    return true;
 }
 
 static void run_prefix_all(Json& js, const Factory& fac, vh::Rng& rng, int k) {
@@ -814,7 +819,7 @@ static void run_long(Json& js, vh::Rng& rng, long budget, size_t maxlen) {
                     // a non-multiple frame: must be rejected without touching the state
                     size_t bad = fg * L.u.gran - 1;
                     if (bad > 0 && bad % L.u.gran != 0 && L.pos + bad <= total) {
-                        step_prefix(js, L, bad);
+                        step_prefix(js, L, bad, true);
                         ++events;
                     }
                 }
